@@ -22,7 +22,7 @@ def make_ref_type(td, cfg):
     u = Fr(1, 1 << f)
     bound = Fr(1 << (l - 1), 1 << f)
     return {'family': sys.modules[__name__], 'l': l, 'f': f, 'u': u, 'bound': bound, 'log': {}, 'm': cfg.m,
-            'kf': tuple(td.get('kf', ()))}
+            'kf': tuple(td.get('kf', ())), 'div_min': Fr(*td['div_min']) if td.get('div_min') else Fr(1)}
 
 
 def rettype(ctx):
@@ -163,8 +163,10 @@ def _ref_div(t, a, p):
     x, y = a
     if min(abs(y[0]), abs(y[1])) < t['u'] or y[0] <= 0 <= y[1]:
         raise ZeroDivisionError
-    if min(abs(y[0]), abs(y[1])) < 1 and 'small_divisor' not in t.get('kf', ()):
-        raise ZeroDivisionError     # quarantined: known finding fxp-div-small-divisor
+    if min(abs(y[0]), abs(y[1])) < t.get('div_min', 1) and 'small_divisor' not in t.get('kf', ()):
+        # quarantined: known finding fxp-div-small-divisor (error ~ units/|y|); generated programs stay at |y| >= 1, the
+        # enumerated division cases go down to 3/4, where that effect is below two units
+        raise ZeroDivisionError
     return [widen(iv_div(x, y), 16 * (1 + iv_abs_max(x)) * t['u'])]
 
 
@@ -707,7 +709,8 @@ class Gen:
         return {'family': NAME, 'type': self.td, 'stmts': self.stmts, 'outputs': outs, 'tags': sorted(self.tags)}
 
 
-TYPES = ((8, 4), (12, 4), (16, 8), (20, 8), (24, 8), (32, 16), (40, 16), (48, 16), (32, 8), (24, 12))
+TYPES = ((8, 4), (12, 4), (16, 8), (20, 8), (24, 8), (32, 16), (40, 16), (48, 16), (32, 8), (24, 12),
+         (38, 19), (36, 18), (12, 6))     # more fractional lengths (Newton iteration counts in _rec differ); l <= 53: outputs are floats
 
 
 def gen(rng, cfg, tier='quick', effects=False, td=None, size=None, all_outputs=False, trig=None, kf=False):
